@@ -341,8 +341,9 @@ class ParseContext:
         import_source=import_source,
         avoid_class_mutation=True)
     if original is not None:  # We've re-registered something...
-      for reference in iterate_references(_CONFIG, to=original.wrapper):
-        reference.initialize(_INVERSE_REGISTRY[fn_or_cls])
+      for config in (_CONFIG, _OPERATIVE_CONFIG):
+        for reference in iterate_references(config, to=original.wrapper):
+          reference.initialize(_INVERSE_REGISTRY[fn_or_cls])
 
     if inspect.isfunction(fn_or_cls) and inspect.isclass(path_attrs[-1]):  # pytype: disable=not-supported-yet
       self._register(attr_names[:-1], attr_values[:-1])
@@ -2255,7 +2256,8 @@ def _config_str(
     macros = {}
     for (scope, selector), config in configuration_object.items():
       if (_REGISTRY[selector].wrapped == macro and  # pylint: disable=comparison-with-callable
-          _is_literally_representable(config.get('value'))):
+          'value' in config and  # An evaluated, never bound macro has no value.
+          _is_literally_representable(config['value'])):
         # As for parameters, a value without a literal form is omitted.
         macros[scope, selector] = config
     if macros:
